@@ -313,3 +313,112 @@ Proof.
   - rewrite H3. apply new_from_prev_links.
   - rewrite <- H1 at 1. rewrite inc_save_prefix. exact H1.
 Qed.
+
+(* ---------- Prev through the cross-reference stream dictionary ---------- *)
+(* Dictionary::remove is IndexMap::swap_remove; on a dictionary with unique keys (IndexMap's invariant) it
+   does not disturb the other keys. *)
+Lemma dict_get_app a b k :
+  dict_get (a ++ b) k = match dict_get a k with Some v => Some v | None => dict_get b k end.
+Proof.
+  induction a as [|[k0 v0] a IH]; cbn [app dict_get]; [reflexivity|].
+  destruct (bytes_eqb k0 k); [reflexivity|exact IH].
+Qed.
+
+Lemma dict_split d k v :
+  dict_get d k = Some v -> exists a b, d = a ++ (k, v) :: b /\ dict_get a k = None.
+Proof.
+  induction d as [|[k0 v0] d IH]; cbn [dict_get]; [discriminate|].
+  destruct (bytes_eqb k0 k) eqn:E.
+  - intro H. inversion H; subst. apply bytes_eqb_eq in E; subst. exists [], d. split; reflexivity.
+  - intro H. destruct (IH H) as (a & b & -> & Ha). exists ((k0, v0) :: a), b. split; [reflexivity|].
+    cbn [dict_get]. rewrite E. exact Ha.
+Qed.
+
+Lemma swap_go_spec k kl vl : forall a v b,
+  dict_get a k = None ->
+  (fix go (d : dict) : dict :=
+     match d with
+     | [] => []
+     | (k', v') :: d' => if bytes_eqb k' k then (kl, vl) :: removelast d' else (k', v') :: go d'
+     end) (a ++ (k, v) :: b) = a ++ (kl, vl) :: removelast b.
+Proof.
+  induction a as [|[k0 v0] a IH]; intros v b Ha.
+  - simpl. rewrite bytes_eqb_refl. reflexivity.
+  - cbn [dict_get] in Ha. destruct (bytes_eqb k0 k) eqn:E; [discriminate|].
+    simpl. rewrite E. f_equal. apply IH. exact Ha.
+Qed.
+
+Lemma NoDup_app_r {A} (l1 l2 : list A) : NoDup (l1 ++ l2) -> NoDup l2.
+Proof. induction l1 as [|a l1 IH]; cbn [app]; [auto|]. intro H. inversion H; subst. auto. Qed.
+
+Lemma NoDup_snoc {A} (l : list A) a : NoDup l -> ~ In a l -> NoDup (l ++ [a]).
+Proof.
+  induction l as [|b l IH]; cbn [app]; intros Hnd Hn.
+  - constructor; [intros []|constructor].
+  - inversion Hnd; subst. constructor.
+    + intro Hin. apply in_app_or in Hin. destruct Hin as [Hin|[Hin|[]]]; [contradiction|].
+      apply Hn. left. exact Hin.
+    + apply IH; [assumption|]. intro Hin. apply Hn. right. exact Hin.
+Qed.
+
+Lemma dict_get_swap_remove_other d k k' :
+  NoDup (map fst d) -> k <> k' -> dict_get (dict_swap_remove d k) k' = dict_get d k'.
+Proof.
+  intros Hnd Hne. unfold dict_swap_remove, dict_has.
+  destruct (dict_get d k) as [v|] eqn:Hk; [|reflexivity].
+  destruct (dict_split d k v Hk) as (a & b & Hd & Ha).
+  destruct (rev d) as [|[kl vl] r] eqn:Hr.
+  - apply (f_equal (@rev _)) in Hr. rewrite rev_involutive in Hr. subst d. destruct a; discriminate.
+  - assert (Hlast : d = rev r ++ [(kl, vl)]).
+    { apply (f_equal (@rev _)) in Hr. rewrite rev_involutive in Hr. exact Hr. }
+    destruct (bytes_eqb kl k) eqn:Ekl.
+    + apply bytes_eqb_eq in Ekl; subst kl. rewrite Hlast, removelast_last, dict_get_app.
+      cbn [dict_get]. destruct (bytes_eqb k k') eqn:E; [apply bytes_eqb_eq in E; contradiction|].
+      destruct (dict_get (rev r) k'); reflexivity.
+    + (* the removed entry is not the last one: b = b' ++ [(kl, vl)] *)
+      assert (Hb : exists b', b = b' ++ [(kl, vl)]).
+      { destruct b as [|x b] using rev_ind.
+        - rewrite Hd in Hlast. apply app_inj_tail in Hlast. destruct Hlast as [_ Hl]. inversion Hl; subst.
+          rewrite bytes_eqb_refl in Ekl. discriminate.
+        - exists b. rewrite Hd in Hlast.
+          replace (a ++ (k, v) :: b ++ [x]) with ((a ++ (k, v) :: b) ++ [x]) in Hlast
+            by (rewrite <- app_assoc; reflexivity).
+          apply app_inj_tail in Hlast. destruct Hlast as [_ ->]. reflexivity. }
+      destruct Hb as [b' ->].
+      rewrite Hd at 1. rewrite (swap_go_spec k kl vl a v (b' ++ [(kl, vl)]) Ha), removelast_last.
+      rewrite Hd, !dict_get_app. cbn [dict_get].
+      destruct (dict_get a k'); [reflexivity|].
+      destruct (bytes_eqb k k') eqn:E; [apply bytes_eqb_eq in E; contradiction|].
+      rewrite dict_get_app. cbn [dict_get].
+      destruct (bytes_eqb kl k') eqn:E2; [|destruct (dict_get b' k'); reflexivity].
+      apply bytes_eqb_eq in E2; subst k'.
+      (* kl occurs only once *)
+      assert (Hnone : dict_get b' kl = None).
+      { destruct (dict_get b' kl) as [w|] eqn:G; [|reflexivity]. exfalso.
+        destruct (dict_split b' kl w G) as (b1 & b2 & Hb' & _).
+        rewrite Hd in Hnd. rewrite map_app in Hnd. apply NoDup_app_r in Hnd.
+        cbn [map fst] in Hnd. inversion Hnd as [|? ? _ Hnd2]; subst.
+        rewrite map_app in Hnd2. cbn [map fst] in Hnd2. apply NoDup_remove_2 in Hnd2.
+        apply Hnd2. rewrite app_nil_r, map_app. cbn [map fst].
+        apply in_or_app. right. left. reflexivity. }
+      rewrite Hnone. reflexivity.
+Qed.
+
+Lemma dict_set_keys d k v :
+  map fst (dict_set d k v) = if dict_has d k then map fst d else map fst d ++ [k].
+Proof.
+  unfold dict_has. induction d as [|[k0 v0] d IH]; cbn [dict_set dict_get map fst app]; [reflexivity|].
+  destruct (bytes_eqb k0 k) eqn:E; cbn [map fst]; [reflexivity|].
+  rewrite IH. destruct (dict_get d k); reflexivity.
+Qed.
+
+Lemma dict_set_nodup d k v : NoDup (map fst d) -> NoDup (map fst (dict_set d k v)).
+Proof.
+  intro H. rewrite dict_set_keys. unfold dict_has. destruct (dict_get d k) eqn:G; [exact H|].
+  apply NoDup_snoc; [exact H|].
+  intro Hin. apply in_map_iff in Hin. destruct Hin as ([k0 v0] & Hk & Hin). cbn [fst] in Hk. subst k0.
+  clear H. induction d as [|[k1 v1] d IH]; [contradiction|]. cbn [dict_get] in G.
+  destruct (bytes_eqb k1 k) eqn:E; [discriminate|]. destruct Hin as [Hin|Hin].
+  - inversion Hin; subst. rewrite bytes_eqb_refl in E. discriminate.
+  - exact (IH G Hin).
+Qed.
